@@ -633,10 +633,11 @@ fn snippet(rng: &mut Rng, theme: usize) -> Vec<u8> {
             4 => vec![0x27],
             _ => vec![0xED, *rng.pick(&[0x67u8, 0x6F, 0x44, 0x4A, 0x42, 0x5A, 0x52])],
         },
-        // long prefix chains
+        // long prefix chains (now and then longer than any fixed bound an implementation might have: 2^10 + a few)
         6 => {
             let mut v = vec![];
-            for _ in 0..rng.range(2, 7) {
+            let n = if rng.chance(1, 40) { *rng.pick(&[255i64, 256, 257, 1023, 1024, 1025, 1026, 1027, 2050, 3000]) } else { rng.range(2, 7) };
+            for _ in 0..n {
                 v.push(*rng.pick(&[0xDDu8, 0xFD]));
             }
             match rng.below(4) {
